@@ -398,6 +398,8 @@ def same_key(k1: Any, k2: Any) -> bool:
         return isinstance(k2, float) and math.isnan(k2)
     elif isinstance(k1, AbstractQName) ^ isinstance(k2, AbstractQName):
         return False
+    elif isinstance(k1, bool) ^ isinstance(k2, bool):
+        return False  # an xs:boolean is not comparable with a numeric value
     elif isinstance(k1, AbstractBinary) and isinstance(k2, AbstractBinary) \
             and type(k1) is not type(k2):
         return False  # xs:hexBinary and xs:base64Binary values are never deep-equal
